@@ -135,6 +135,9 @@ def run(seed, tier, replay=None):
             e = getattr(d, kind)(np.array([]))
             if np.shape(e) != (0,):
                 rep.violate(what=f"{kind} on an empty query does not return an empty array", input=inp)
+            for sh, msg in C.shape_probe(getattr(d, kind), qs)[:1]:
+                rep.violate(what=f"{kind}: {msg} (every output has the shape of the query)", input=dict(inp, qs=[C.fhex(q) for q in qs[:6]]),
+                            shape=list(sh), call=f"EmpiricalDistribution.{kind}")
         elif kind == "moments":
             mean_m, var_m = C.parse_ext(r[0]), C.parse_ext(r[1])
             scale = max(1.0, max(abs(v) for v in ys))
@@ -179,6 +182,9 @@ def run(seed, tier, replay=None):
             m2 = d.ppf(np.array(qs[:4]).reshape(2, 2))
             if np.shape(m2) != (2, 2) or not np.array_equal(np.ravel(m2), impl[:4], equal_nan=True):
                 rep.violate(what="ppf on a 2-D query is not the elementwise result", input=inp)
+        for sh, msg in C.shape_probe(d.ppf, qs)[:1]:
+            rep.violate(what=f"ppf: {msg} (every output has the shape of the query)", input=dict(inp, qs=[C.fhex(q) for q in qs[:6]]),
+                        shape=list(sh), call="EmpiricalDistribution.ppf")
     return rep.result(
         rule="structured samples (sizes 1-40; grid/tied/rounded/constant/huge/±inf values; None, integer-ratio, "
              "zero-containing, near-uniform weights; bounds at min/max/beyond/infinite); queries: every atom, both "
